@@ -26,7 +26,7 @@ import z3
 
 from pyvc.core import BOOL, INT, STR, SV, TObj, TOpt, TTuple, Snapshot, declare_class
 from pyvc.interp import LoopSpec, Builtin, ClassRef, BoundMethod
-from pyvc.model import Contract, Model, Param
+from pyvc.model import Contract, GenSpec, Model, Param
 
 REL = "rdflib/plugins/sparql/update.py"
 CTX, CV, GR, DS = TObj("QueryContext"), TObj("CompValue"), TObj("Graph"), TObj("Dataset")
@@ -41,6 +41,7 @@ PAIR = TTuple(INT, INT, name="GraphAndTemplate")
 ctx_of_name = z3.Function("get_context_by_designator", z3.IntSort(), z3.StringSort(), z3.IntSort())
 gident = z3.Function("graph_identifier", z3.IntSort(), z3.IntSort())
 SRCDST = TTuple(STR, STR, name="SourceAndTarget")
+ds_contexts = z3.Function("dataset_contexts", z3.IntSort(), z3.ArraySort(z3.IntSort(), z3.BoolSort()))
 STORE = TObj("Store")
 
 
@@ -58,7 +59,7 @@ class ModifyModel(Model):
         super().__init__()
         declare_class("QueryContext", fields={"graph": GR, "dataset": DS})
         declare_class("CompValue", fields={"using": BOOL, "withClause": TOpt(INT), "where": INT, "delete": TOpt(CV), "insert": TOpt(CV),
-                                           "triples": INT, "graph": SRCDST})
+                                           "triples": INT, "graph": SRCDST, "graphiri": STR})
         declare_class("Graph", fields={"__plain__": BOOL})
         declare_class("Dataset", fields={"default_context": GR, "store": STORE})
         declare_class("Store", fields={"graph_aware": BOOL})
@@ -108,6 +109,9 @@ class ModifyModel(Model):
                         return SV(GR, ctx_of_name(o.z, it2.path.inject(STR, a[0])))
                     return SV(GR, ctx_of(o.z, it2.path.inject(INT, a[0])))
                 return BoundMethod(obj, name, get_context)
+            if obj.ty.cls == "Dataset" and name == "contexts":
+                arr = ds_contexts(obj.z)
+                return BoundMethod(obj, name, lambda it2, o, a, k: Snapshot(GR, lambda z: arr[z], True))
             if obj.ty.cls == "Graph" and name == "identifier":
                 return SV(INT, gident(obj.z))
             if obj.ty.cls == "Graph" and name == "remove":
@@ -135,6 +139,11 @@ class ModifyModel(Model):
         if isinstance(obj, SV) and obj.ty.sort() == z3.IntSort() and name == "get":     # a solution: c.get(g)
             return BoundMethod(obj, "get", lambda it2, o, a, k: SV(INT, bound_graph(o.z, it2.path.inject(INT, a[0]))))
         return NotImplemented
+
+    def pure_getattr(self, it, obj, name, node):
+        if isinstance(obj, SV) and isinstance(obj.ty, TObj) and obj.ty.cls == "Graph" and name == "identifier":
+            return SV(INT, gident(obj.z))
+        return super().pure_getattr(it, obj, name, node)
 
     def iter_descr(self, it, v):
         if isinstance(v, QuadsDict):
@@ -207,6 +216,48 @@ class ModifyModel(Model):
                           post=lambda c: [("the-real-default-graph", c.result.z == real_default(c.old, c.args["ctx"].z))],
                           modifies=[], note="writes outside GRAPH address ctx.graph if it is a plain Graph, else the "
                                             "dataset's default graph - never the union"))
+
+        self.func_contracts["_defaultGraph"].pure_value = lambda c: real_default(c.old, c.args["ctx"].z)
+
+        # ---- _graphAll / CLEAR / DROP: which graphs a designator stands for
+        def all_member(c, z):
+            st, ctx, g = c.old, c.args["ctx"].z, c.args["g"].z
+            ds = st.field("QueryContext", "dataset", ctx)
+            rd = real_default(st, ctx)
+            S = z3.StringVal
+            return z3.If(g == S("DEFAULT"), z == rd,
+                         z3.If(g == S("NAMED"), z3.And(ds_contexts(ds)[z], gident(z) != gident(rd)),
+                               z3.If(g == S("ALL"), ds_contexts(ds)[z], z == ctx_of_name(ds, g))))
+        self.add(Contract("C10", REL, "_graphAll", [Param("ctx", CTX), Param("g", STR)], pre=ctx_pre,
+                          gen=GenSpec(GR, all_member, distinct=False, complete=True), modifies=[],
+                          note="DEFAULT = the real default graph only; NAMED = every graph of the dataset except the real "
+                               "default graph; ALL = every graph; otherwise the graph of that name"))
+
+        def clear_post(c):
+            st, ctx, u = c.old, c.args["ctx"].z, c.args["u"].z
+            x = z3.Int("cl_x")
+            ds = st.field("QueryContext", "dataset", ctx)
+            rd = real_default(st, ctx)
+            g = st.field("CompValue", "graphiri", u)
+            S = z3.StringVal
+            member = z3.If(g == S("DEFAULT"), x == rd,
+                           z3.If(g == S("NAMED"), z3.And(ds_contexts(ds)[x], gident(x) != gident(rd)),
+                                 z3.If(g == S("ALL"), ds_contexts(ds)[x], x == ctx_of_name(ds, g))))
+            gh = c.path.ghost
+            return [("clears-exactly-the-designated-graphs", z3.ForAll([x], gh["cleared"][x] == member)),
+                    ("adds-nothing", z3.ForAll([x], z3.Not(gh["added_to"][x]))),
+                    ("no-triple-wise-removal", z3.ForAll([x], z3.Not(gh["removed_from"][x])))]
+
+        def clear_inv(lc):
+            c = lc.interp.callctx
+            x = z3.Int("ci_x")
+            gh = lc.path.ghost
+            return z3.And(z3.ForAll([x], gh["cleared"][x] == lc.done[x]), z3.ForAll([x], z3.Not(gh["added_to"][x])),
+                          z3.ForAll([x], z3.Not(gh["removed_from"][x])))
+        self.add(Contract("C10", REL, "evalClear", [Param("ctx", CTX), Param("u", CV)],
+                          pre=lambda c: z3.And(ctx_pre(c), c.args["u"].z > 0), post=clear_post, modifies=[],
+                          loops={0: LoopSpec(clear_inv, modifies=["cleared", "added_to", "removed_from"], var_types={"g": GR})},
+                          note="CLEAR g: exactly the graphs g designates are emptied (CLEAR DEFAULT leaves every named graph alone)"))
 
         def god_post(c):
             st, ctx, g = c.old, c.args["ctx"].z, c.args["g"].z
